@@ -11,7 +11,9 @@ Driver for C15 (`Composite::from_string`).  Protocol: harness/src/bin/c15.rs.
   x <name> <maxw> <text>                    mutated / garbage text
 
 `<text>`, `<name>` and error payloads: '.'-separated hexadecimal code points ('-' = empty).
-Answer: `ok <width> <name> | mat <n> <re im>…` (`mat -`: wider than `maxw`, matrix not taken; `mat panic`),
+Answer: `ok <width> <name> | ops <k> <op>… | mat <n> <re im>…` (`<op>` = `<name>[(<p1>,<p2>…)]@<b0>,<b1>…`, the sub-gate list of
+the hook `Composite::verif_ops`; parameters as bit patterns on the model side, as the 4 decimals of the description on the
+implementation side; `mat -`: wider than `maxw`, matrix not taken; `mat panic`),
 `err <constructor> <payload>`, `panic`.
 -/
 open Q1t Q1t.Proto Q1t.CFloat
@@ -51,6 +53,36 @@ def showErr : FromString.ParseErr → String
   | .trailingText t => s!"err trailingText {encodeText t}"
   | .unclosedParentheses t => s!"err unclosedParentheses {encodeText t}"
 
+/-- `Gate::description()` of a library gate up to its parameter list. -/
+partial def descName : GateTerm Float → String
+  | .H => "H" | .X => "X" | .Y => "Y" | .Z => "Z" | .S => "S" | .Sdg => "S†" | .T => "T" | .Tdg => "T†"
+  | .V => "V" | .Vdg => "V†" | .I => "I"
+  | .RX _ => "RX" | .RY _ => "RY" | .RZ _ => "RZ" | .U1 _ => "U1" | .U2 _ _ => "U2" | .U3 _ _ _ => "U3"
+  | .CX => "CX" | .CY => "CY" | .CZ => "CZ" | .Swap => "Swap"
+  | .C g => "C" ++ descName g
+  | .Composite n _ _ => n
+  | _ => "?"
+
+/-- The parameters a description shows, in its order. -/
+partial def gateParams : GateTerm Float → List Float
+  | .RX x | .RY x | .RZ x | .U1 x => [x]
+  | .U2 x y => [x, y]
+  | .U3 x y z => [x, y, z]
+  | .C g => gateParams g
+  | _ => []
+
+def commaNats (l : List Nat) : String := ",".intercalate (l.map toString)
+
+/-- `<name>[(<bits of p1>,…)]@<b0>,<b1>…` -/
+def opToken (g : GateTerm Float) (bits : List Nat) : String :=
+  let ps := gateParams g
+  let pstr := if ps.isEmpty then "" else "(" ++ ",".intercalate (ps.map floatToHex) ++ ")"
+  encodeText (descName g).toList ++ pstr ++ "@" ++ commaNats bits
+
+partial def opTokens : OpList Float → List String
+  | .nil => []
+  | .cons g bits rest => opToken g bits :: opTokens rest
+
 /-- The model's answer. -/
 def answer (name : List Char) (maxw : Nat) (text : List Char) : String :=
   match FromString.fromString Expr.floatOps FromString.genTables (String.ofList name) text with
@@ -60,7 +92,10 @@ def answer (name : List Char) (maxw : Nat) (text : List Char) : String :=
       if w > maxw then "-" else
         let m : LMat CFloat := Gate.matrix g
         if m.isEmpty then "panic" else showMat m
-    s!"ok {w} {encodeText name} | mat {mat}"
+    let ops := match g with
+      | .Composite _ _ ops => opTokens ops
+      | _ => []
+    s!"ok {w} {encodeText name} | ops {ops.length}{String.join (ops.map (" " ++ ·))} | mat {mat}"
   | .err e => showErr e
   | .panic site => s!"panic {site}"
   | .fuel => "model-out-of-fuel"
@@ -185,14 +220,60 @@ def unflat (n : Nat) (v : List CFloat) : LMat CFloat :=
 
 def hasNaN (m : LMat CFloat) : Bool := m.any fun r => r.any fun c => c.re.isNaN || c.im.isNaN
 
-/-- Split an `ok` answer: width, name, matrix part. -/
-def splitOk (ans : String) : Option (Nat × String × List String) :=
+/-- Split an `ok` answer: width, name, sub-gate tokens, matrix part. -/
+def splitOk (ans : String) : Option (Nat × String × List String × List String) :=
   match ans.splitOn " | " with
-  | [h, m] =>
-    match words h, words m with
-    | ["ok", w, nm], "mat" :: rest => w.toNat?.map fun w => (w, nm, rest)
+  | [h, o, m] =>
+    match words h, words o, words m with
+    | ["ok", w, nm], "ops" :: k :: toks, "mat" :: rest =>
+      match w.toNat?, k.toNat? with
+      | some w, some k => if toks.length = k then some (w, nm, toks, rest) else none
+      | _, _ => none
+    | _, _, _ => none
+  | _ => none
+
+/-- A decimal of a description (`1.5708`, `-0.0000`, `NaN`, `inf`). -/
+def parseDec (t : String) : Option Float :=
+  if t = "NaN" then some (0.0 / 0.0) else if t = "inf" then some (1.0 / 0.0) else if t = "-inf" then some (-1.0 / 0.0) else
+  let (neg, body) := if t.startsWith "-" then (true, (t.drop 1).toString) else (false, t)
+  match body.splitOn "." with
+  | [ip] => ip.toNat?.map fun n => let x := Float.ofNat n; if neg then -x else x
+  | [ip, fp] =>
+    match ip.toNat?, fp.toNat? with
+    | some a, some b =>
+      let x := Float.ofScientific (a * 10 ^ fp.length + b) true fp.length
+      some (if neg then -x else x)
     | _, _ => none
   | _ => none
+
+/-- The description shows the parameter rounded to 4 decimals. -/
+def closeDec (v : Float) (t : String) : Bool :=
+  match parseDec t with
+  | none => false
+  | some d =>
+    if v.isNaN then d.isNaN
+    else if v.isInf then d == v
+    else (v - d).abs ≤ 5.0e-5 + 1.0e-9 + 1.0e-12 * v.abs
+
+/-- One sub-gate token of the implementation against the expected gate on the expected qubits (in that ORDER). -/
+def opMatches (tok : String) (g : GateTerm Float) (bits : List Nat) : Bool :=
+  match tok.splitOn "@" with
+  | [left, bs] =>
+    let (nm, ps) := match left.splitOn "(" with
+      | [n] => (n, ([] : List String))
+      | [n, rest] => (n, (rest.dropEnd 1).toString.splitOn ",")
+      | _ => ("", [])
+    let want := gateParams g
+    nm == encodeText (descName g).toList && bs == commaNats bits && ps.length == want.length &&
+      (List.zipWith closeDec want ps).all id
+  | _ => false
+
+partial def opsMatch : List String → OpList Float → Option String
+  | [], .nil => none
+  | tok :: toks, .cons g bits rest =>
+    if opMatches tok g bits then opsMatch toks rest
+    else some s!"{tok}-expected-{opToken g bits}"
+  | _, _ => some "different-number-of-sub-gates"
 
 /-- Grammar-generated description: the result is the documented gates in order on `max index + 1` qubits. -/
 def specG (name text : List Char) (maxw : Nat) (structure_ : String) (ans : String) : String :=
@@ -221,9 +302,13 @@ def specG (name text : List Char) (maxw : Nat) (structure_ : String) (ans : Stri
         | none =>
           if ps.any fun p => p.bigInt then s!"fail arg-int-literal-overflow got {ans.take 60}"
           else s!"fail valid-description-rejected {ans.take 80}"
-        | some (w, nm, mat) =>
+        | some (w, nm, toks, mat) =>
+          let wantOps := match g with
+            | .Composite _ _ ops => ops
+            | _ => .nil
           if w ≠ top + 1 then s!"fail wrong-width expected {top + 1}"
           else if nm ≠ encodeText name then "fail wrong-name"
+          else if let some why := opsMatch toks wantOps then s!"fail sub-gate-list-differs {why}"
           else match mat with
             | ["-"] => if w > maxw then "ok" else "fail matrix-missing"
             | ["panic"] =>
@@ -272,7 +357,7 @@ def specCheck (line : String) : String :=
             (if ans.startsWith "panic" then "fail panic"
              else if ans.startsWith "ok " then
                (match splitOk ans with
-                | some (w, _, _) => if w = 0 then "fail zero-width-composite" else "ok"
+                | some (w, _, _, _) => if w = 0 then "fail zero-width-composite" else "ok"
                 | none => "fail unparsable-answer")
              else if ans.startsWith "err " then "ok"
              else "fail unexpected-answer")
